@@ -34,13 +34,34 @@ def run_fault(ctx, variant, nprog):
                                                  "replay_cmd": "%s %d %d" % (drv, ctx.seed, nprog)}, True,
                       "fault_drv (%s) rc=%d: %s" % (variant, rc, " | ".join(lines[-3:])))
     # known findings re-confirmed on the real code (they belong to C10 only)
+    # D7: exactly std::out_of_range (the driver prints `D7 out_of_range`; any other non-Error outcome is also a FAIL line).
+    # D21: the known witness needs add=ok, update=Error AND state-changed=1 (some arrangement of the registered
+    # parameters really shows a valid parameter updated before update() raised); add=Error (repaired at add) or
+    # state-changed=0 (nothing changed) satisfy the property; anything else is an ordinary violation.
+    d7_seen = d21_seen = False
     for l in (lines if ctx.pid == "C10" else []):
-        if l.startswith("D7 ") and "other-exception" in l:
-            ctx.violation("d7", {"kind": "exception-type", "witness": "Parameter::stats(unknown-name) -> " + l[3:]}, True)
-        elif l.startswith("D7 ") and "Error" not in l:
-            ctx.violation("d7x", {"kind": "exception-type", "witness": "Parameter::stats unknown name unexpected: " + l}, True, l)
-        if l.startswith("D21 ") and "update=Error" in l and "add=ok" in l:
-            ctx.violation("d21", {"kind": "failing-call-changes-state", "witness": "Optimizer::update() with registered invalid parameter: " + l}, True)
+        if l.startswith("D7 "):
+            d7_seen = True
+            info["d7"] = l
+            if l == "D7 out_of_range":
+                ctx.violation("d7", {"kind": "exception-type", "witness": "Parameter::stats(unknown-name) -> std::out_of_range"}, True)
+            elif l != "D7 Error":
+                ctx.violation("d7x", {"kind": "exception-type", "witness": "fault_drv :: Parameter::stats unknown name unexpected: " + l,
+                                      "replay_cmd": "%s %d %d" % (drv, ctx.seed, nprog)}, True, l)
+        if l.startswith("D21 "):
+            d21_seen = True
+            info["d21"] = l
+            m21 = re.match(r"D21 add=(\S+) update=(\S+) state-changed=([01]) arrangements=(\d+) changed-in=(\d+)$", l)
+            if m21 and m21.group(1) == "ok" and m21.group(2) == "Error":
+                if m21.group(3) == "1":
+                    ctx.violation("d21", {"kind": "failing-call-changes-state",
+                                          "witness": "Optimizer::update() with registered invalid parameter: add=ok update=Error state-changed=1 (%s of %s arrangements)" % (m21.group(5), m21.group(4))}, True)
+            elif not (m21 and m21.group(1) == "Error"):
+                ctx.violation("d21x", {"kind": "exception-type", "witness": "fault_drv :: Optimizer::update() with registered invalid parameter unexpected: " + l,
+                                       "replay_cmd": "%s %d %d" % (drv, ctx.seed, nprog)}, True, l)
+    if ctx.pid == "C10" and summ and not (d7_seen and d21_seen):
+        ctx.violation("fault-probes-missing-" + variant, {"kind": "crash", "witness": "fault_drv :: D7/D21 probe lines missing (D7 %s, D21 %s)" % (d7_seen, d21_seen),
+                                                          "replay_cmd": "%s %d %d" % (drv, ctx.seed, nprog)}, False, "fault_drv printed no D7/D21 line")
     ctx.add_samples(["fault_drv %s: %s" % (variant, info["summary"])])
 
 
@@ -61,12 +82,35 @@ def run_random_recovery(ctx):
 
 
 def confirm_d32(ctx):
-    """Known finding D32 (needs ~13 GiB and ~30 s: thorough tier only)."""
+    """Known finding D32 (needs ~13 GiB and ~30 s: thorough tier only).  The KNOWN-FINDING is printed only
+    when the probe really observed the behaviour (exit 0 and its last line `VERDICT updated-before-error`); a probe
+    that could not run (set-up failed / allocator Error / killed / timeout / crash) is stated as such in the evidence
+    (cov["d32_probe"]["status"]) and confirms nothing; an exception that is not primitiv::Error is an ordinary violation."""
     drv = pv.build_harness("plain", "matmul_bw_probe")
     rc, out = pv.sh("%s 32768" % drv, timeout=600)
-    ctx.cov["d32_probe"] = out.strip()[-300:]
-    if "UPDATED before the Error" in out:
-        ctx.violation("d32", {"kind": "failing-call-changes-state", "witness": "matmul_bw temporaries exceed 2^32: ga updated before Error :: " + out.strip()[-200:]}, True)
+    last = ([l for l in out.splitlines() if l.strip()] or ["<no output>"])[-1]
+    ev = {"cmd": "%s 32768" % drv, "rc": rc, "output": out.strip()[-400:]}
+    if rc == 0 and last == "VERDICT updated-before-error":
+        ev["status"] = "observed: Error from the shape guard after ga was updated (D32 confirmed on this run)"
+        ctx.violation("d32", {"kind": "failing-call-changes-state", "witness": "matmul_bw temporaries exceed 2^32: ga updated before Error :: " + " | ".join(out.strip().splitlines()[-3:-1])[-200:]}, True)
+    elif rc == 0 and last == "VERDICT unchanged":
+        ev["status"] = "observed: Error raised and ga unchanged (D32 not present on this tree)"
+    elif rc == 0 and last == "VERDICT no-error":
+        ev["status"] = "observed: the call returned without Error (a backward that avoids the 2^32-element temporary; D32 not present on this tree)"
+    elif rc == 0 and last.startswith("VERDICT wrong-exception"):
+        ev["status"] = "observed: " + last
+        ctx.violation("d32x", {"kind": "fault-injection", "witness": "fault_drv :: matmul_bw_probe unexpected: " + last[-200:], "replay_cmd": ev["cmd"]}, True, last)
+    else:
+        if rc == 124:
+            why = "timeout"
+        elif rc > 128 or rc < 0:
+            why = "killed by signal %d (out of memory?)" % (rc - 128 if rc > 128 else -rc)
+        elif last.startswith("VERDICT could-not-run"):
+            why = last[len("VERDICT could-not-run "):]
+        else:
+            why = "rc=%s, no VERDICT line" % rc
+        ev["status"] = "PROBE DID NOT RUN (%s): D32 neither confirmed nor refuted on this run" % why
+    ctx.cov["d32_probe"] = ev
 
 
 def param_init_tie(ctx):
